@@ -37,6 +37,8 @@ func Keys[M ~map[K]V, K comparable, V any](site string, m M) []K {
 	}
 	if S == nil {
 		SiteHits[site]++
+	} else if !Free {
+		S.mapAccess(site, m, false)
 	}
 	if MapOrder != nil && len(sorted) > 1 {
 		if perm := MapOrder(site, len(sorted)); perm != nil {
